@@ -60,7 +60,47 @@ func (rl *rowLoop) NullField() string {
 	if rl.Null == nil {
 		return "?"
 	}
-	return bitmapFieldEnv(rl.Null, rl.Env)
+	if f := bitmapFieldEnv(rl.Null, rl.Env); f != "?" {
+		return f
+	}
+	// a bitmap built inside the helper and handed back: the field the caller stores that result into
+	return returnedLocalDest(strip(rl.Null.Common().Args[0]), rl.Site)
+}
+
+// returnedLocalDest: addr is a local of a helper whose value the helper returns as result k; the name of the struct field
+// the caller stores result k of call site into ("?" if that does not hold).
+func returnedLocalDest(addr ssa.Value, site *ssa.Call) string {
+	al, ok := addr.(*ssa.Alloc)
+	if !ok || site == nil {
+		return "?"
+	}
+	k := -1
+	for _, ret := range returnsOf(al.Parent()) {
+		for i, res := range ret.Results {
+			if u, ok := res.(*ssa.UnOp); ok && u.Op == token.MUL && u.X == ssa.Value(al) {
+				if k >= 0 && k != i {
+					return "?"
+				}
+				k = i
+			}
+		}
+	}
+	if k < 0 {
+		return "?"
+	}
+	dest := "?"
+	for _, ref := range *site.Referrers() {
+		if ex, ok := ref.(*ssa.Extract); ok && ex.Index == k {
+			for _, rr := range *ex.Referrers() {
+				if st, ok := rr.(*ssa.Store); ok {
+					if fa, ok := st.Addr.(*ssa.FieldAddr); ok {
+						dest = fieldName(fa)
+					}
+				}
+			}
+		}
+	}
+	return dest
 }
 
 func isLoopHeader(b *ssa.BasicBlock) bool {
